@@ -260,7 +260,9 @@ var alphabet12 = []byte{0x00, 0x01, 0x06, 0x08, 0x09, 0x0a, 0x0b, 0x0c, 0x0d, 0x
 
 // hostile constants for embedded lengths
 func hostileLengths(remaining int64) []int64 {
-	return []int64{-1 << 31, -1, 0, remaining - 1, remaining, remaining + 1, 1 << 20, 1<<31 - 1}
+	// small negative lengths matter on their own: a reader that seeks by a negative
+	// length moves backwards (by exactly the field's size it re-reads the field forever)
+	return []int64{-1 << 31, -16, -8, -7, -6, -5, -4, -3, -2, -1, 0, remaining - 1, remaining, remaining + 1, 1 << 20, 1<<31 - 1}
 }
 
 type famCtx struct {
@@ -650,7 +652,7 @@ func buildFamilies(c *famCtx, only string) ([]*family, error) {
 			}
 		}
 		fams = append(fams, listFamily("length-bomb",
-			"every embedded length of every baseline (STRING1 byte, STRING4 word, length field of LIST/MAP/SimpleList at any nesting level) replaced by each of {-2^31,-1,0,remaining-1,remaining,remaining+1,2^20,2^31-1} (STRING1: those that fit a byte plus 0x7f,0x80,0xff; containers: as INT and in the narrowest integer form, plus one LONG), on the baseline's own entries",
+			"every embedded length of every baseline (STRING1 byte, STRING4 word, length field of LIST/MAP/SimpleList at any nesting level) replaced by each of {-2^31,-16,-8..-1,0,remaining-1,remaining,remaining+1,2^20,2^31-1} (STRING1: those that fit a byte plus 0x7f,0x80,0xff; containers: as INT and in the narrowest integer form, plus one LONG), on the baseline's own entries",
 			16, false, cs))
 	}
 
@@ -814,7 +816,14 @@ func buildFamilies(c *famCtx, only string) ([]*family, error) {
 			b    []byte
 		}
 		lens := []lenForm{{"INT -2^31", ref.AppendIntAs(nil, 0, -1<<31, ref.WInt)}, {"BYTE -1", ref.AppendInt(nil, 0, -1)}, {"ZeroTag", ref.AppendInt(nil, 0, 0)},
-			{"BYTE 3", ref.AppendInt(nil, 0, 3)}, {"BYTE 4", ref.AppendInt(nil, 0, 4)}, {"INT 2^20", ref.AppendIntAs(nil, 0, 1<<20, ref.WInt)}, {"INT 2^31-1", ref.AppendIntAs(nil, 0, 1<<31-1, ref.WInt)}}
+			{"BYTE 3", ref.AppendInt(nil, 0, 3)}, {"BYTE 4", ref.AppendInt(nil, 0, 4)},
+			// minus the size of the field itself (head 1-2, element head 1, length field 2/3/5): a reader that
+			// seeks by a negative length ends up where the field began
+			{"BYTE -2", ref.AppendInt(nil, 0, -2)}, {"BYTE -3", ref.AppendInt(nil, 0, -3)}, {"BYTE -4", ref.AppendInt(nil, 0, -4)}, {"BYTE -5", ref.AppendInt(nil, 0, -5)},
+			{"BYTE -6", ref.AppendInt(nil, 0, -6)}, {"BYTE -7", ref.AppendInt(nil, 0, -7)}, {"BYTE -8", ref.AppendInt(nil, 0, -8)},
+			{"SHORT -5", ref.AppendIntAs(nil, 0, -5, ref.WShort)}, {"SHORT -6", ref.AppendIntAs(nil, 0, -6, ref.WShort)},
+			{"INT -7", ref.AppendIntAs(nil, 0, -7, ref.WInt)}, {"INT -8", ref.AppendIntAs(nil, 0, -8, ref.WInt)},
+			{"INT 2^20", ref.AppendIntAs(nil, 0, 1<<20, ref.WInt)}, {"INT 2^31-1", ref.AppendIntAs(nil, 0, 1<<31-1, ref.WInt)}}
 		mkSL := func(tag uint8, head byte, l lenForm) []byte {
 			b := ref.AppendHead(nil, tag, ref.WSimpleList)
 			b = append(b, head)
